@@ -507,6 +507,17 @@ pub(crate) fn verify_dummy_private_batch_template(
     Ok(())
 }
 
+/// Verification hook: forwarder to the crate-private public-batch preflight,
+/// so the pool's snapshots can be checked against it from outside the crate.
+#[cfg(quantus_network_qp_zk_circuits_verif)]
+pub fn verif_c21_preflight_private_batch_proofs(
+    proofs: &[ProofWithPublicInputs<F, C, D>],
+    num_private_batch_proofs: usize,
+    private_batch_verifier: &VerifierCircuitData<F, C, D>,
+) -> Result<()> {
+    preflight_private_batch_proofs(proofs, num_private_batch_proofs, private_batch_verifier)
+}
+
 #[cfg(test)]
 mod tests {
     use super::*;
